@@ -88,7 +88,10 @@ func (f *TMemoryOutputBuffer) ReadFrom(r io.Reader) (int64, error) {
 // Reset clears the buffer
 func (f *TMemoryOutputBuffer) Reset() {
 	f.TMemoryBuffer.Reset()
-	f.Write(emptyFrameSize)
+	// The frame size placeholder is framing, not payload: it goes straight into
+	// the embedded buffer. Through the size-checked Write a limit smaller than
+	// the placeholder would make Write and Reset call each other forever.
+	f.TMemoryBuffer.Write(emptyFrameSize)
 }
 
 // Bytes retrieves the framed contents of the buffer.
